@@ -79,7 +79,7 @@ class Check(ScenarioCheck):
 
 CHECK = Check(
     "C07", ["SimVerif.Props.C07"], "kernel", gen, spec_c07, nontrivial,
-    "gen/hs_gen.py families hs (1-2 acceptors x 1-5 clients; accept before/after SYN arrival, bursts at one instant, more connects than accepts and vice versa, accept / accept_ep / accept_new, re-accept into a reused socket, acceptor close/close0/cancel/re-open in mid-flight), refuse (no socket; bound not listening; closed/close0/destroyed acceptor; listen after connect; other port / other address of a multi-homed node; wildcard acceptor dialled on the second address; remote/local/read/write on the refused socket; re-connect to a live acceptor), natmix (client-side NAT, both sides, several nodes behind one external address, UDP alongside) plus net_gen tcp/mixed; v4/v6, multi-homed nodes, instant and slow routes; local/remote queried in every connect and accept handler; both-direction data with per-socket stream ids. non-trivial = a connect whose SYN reached an acceptor's probe or that was refused; distinct = distinct implementation trace",
+    "gen/hs_gen.py families hs (1-2 acceptors x 1-5 clients; accept before/after SYN arrival, bursts at one instant, more connects than accepts and vice versa, accept / accept_ep / accept_new, re-accept into a reused socket, acceptor close/close0/cancel/re-open in mid-flight), refuse (no socket; bound not listening; closed/close0/destroyed acceptor; listen after connect; other port / other address of a multi-homed node; wildcard acceptor dialled on the second address; remote/local/read/write on the refused socket; re-connect to a live acceptor), natmix (client-side NAT, both sides, several nodes behind one external address, UDP alongside) plus net_gen tcp/mixed; v4/v6, multi-homed nodes, instant and slow routes; acceptor destroyed in mid-flight (pending connects' SYNs in flight or queued), optionally a new acceptor object on the endpoint; local/remote queried in every connect and accept handler and again from I/O completion handlers (last write, first and last read) after payload / ACKs crossed the routes; both-direction data with per-socket stream ids. non-trivial = a connect whose SYN reached an acceptor's probe or that was refused; distinct = distinct implementation trace",
     TRUSTED, ASSUME, spec_scn=True)
 
 
